@@ -1,18 +1,19 @@
 #!/bin/bash
 # Offline setup: pre-build the framework and warm the Go build cache (checks rebuild from /repo on every run).
 set -e
+build() { "$@" || { case " $(cat tools/ready.txt) " in *" $(echo $ID | tr a-z A-Z) "*) exit 1;; *) echo "warning: $ID (not claimed) failed to build";; esac; }; }
 cd "$(dirname "$0")"
 export GOFLAGS=-mod=mod GOPROXY=off
 mkdir -p .build/bin evidence replays
 go build -o .build/bin/vinst ./vinst
 for d in props/*/; do
-  id=$(basename $d)
+  id=$(basename $d); ID=$id
   if [ -f $d/INSTRUMENT ]; then
     v=$(cat $d/INSTRUMENT)
     [ -f .build/inst-$v/overlay.json ] || .build/bin/vinst -repo /repo -out .build/inst-$v -variant $v >/dev/null
-    go build -tags verif -overlay .build/inst-$v/overlay.json -o .build/bin/$id ./$d
+    build go build -tags verif -overlay .build/inst-$v/overlay.json -o .build/bin/$id ./$d
   else
-    go build -o .build/bin/$id ./$d
+    build go build -o .build/bin/$id ./$d
   fi
 done
 echo setup ok
